@@ -3,7 +3,7 @@ CONSTANTS
   Configs <- MCConfigs
   SAT = SAT
   InScope <- ScopeHealthy
-  ExcuseStuck = TRUE
+  ExcuseStuck = FALSE
 VIEW view
 INVARIANTS TypeOK AllowedDefined AllowedInRange AdmittedLeT ColdAfterIdle ColdAfterIdleObs WarmAfterSat NoStarvation
 CHECK_DEADLOCK FALSE
